@@ -270,4 +270,16 @@ def assembleFrames (rows : List (List Rat)) (ori : List Rat) (hint rtol atol : O
       | none => .error .index
     | _, _ => .error .value
 
+/-- `get_series_volume_positions` on single-frame datasets given as (orientation, position) pairs; `hint` is the
+first dataset's `SpacingBetweenSlices` if present.  Differing orientations (compared exactly, as the code compares the
+attribute values) are `(None, None)`. -/
+def seriesVolumePositions (items : List (List Rat × List Rat)) (hint : Option Rat) (o : Opts) :
+    Except ErrKind (Option (Rat × List Int)) :=
+  match items with
+  | [] => .error .value
+  | [_] => .ok (some (1, [0]))
+  | first :: rest =>
+    if rest.any (fun it => it.1 != first.1) then .ok none
+    else getVolumePositions (items.map (·.2)) first.1 { o with hint := hint }
+
 end HdVerif.Stack
